@@ -79,7 +79,8 @@ def eval_case(case):
         if k > 0:
             _, nxt = out[lane * per + 1].split(' ')
             for j in range(n_io, len(nxt)):
-                if cap[j] == '-': continue
+                # a state element with open data pin ('-': nothing captured) is compared too: the specification (KV.nextStateFrom,
+                # C01.nextState_is_spec) says it takes constant 0
                 got = int(s0[j, lane]) & 1
                 if got != int(nxt[j]):
                     return False, {'lane': lane, 's_node': j, 'state_after_cycles': int(s0[j, lane])}, {'state': int(nxt[j])}
@@ -108,7 +109,10 @@ def make_case(rng, c, thorough):
 def corr_and_oracle(ck, n_circuits, thorough=False):
     rng = ck.rng
     for it in range(n_circuits):
-        c = circ.rand_circuit(rng, n_gates=rng.randint(1, 25 if not thorough else 80))
+        if it % 5 == 4:     # sequential corner cases in the ORACLE stream: open data pins (capture constant 0), capture-only and toggle flip-flops
+            c = seq_circuit(rng, n_gates=rng.randint(1, 15))
+        else:
+            c = circ.rand_circuit(rng, n_gates=rng.randint(1, 25 if not thorough else 80))
         d = circ.describe(c)
         dump = circ.dump_net(c)
         # correspondence of the SimOps model (all option tuples)
@@ -125,11 +129,11 @@ def corr_and_oracle(ck, n_circuits, thorough=False):
         # certificates of Props/C01 (4''): pin tables / line records consistent, the REAL topological order is one
         try:
             order = ','.join(str(n.index) for n in c.topological_order())
-            ans = common.run_driver([f'net {dump}', f'netcert {order}'])[1]
+            ans = ' '.join(common.run_driver([f'net {dump}', f'netcert {order}', 'netarity'])[1:])
         except Exception as ex:
             ans = f'{type(ex).__name__}: {ex}'[:200]
-        if ans != 'wf=true order=true':
-            ck.broken_tie('certificates Net.wfB / orderOKB on the real circuit and the real topological order', ans, inp={'net': dump})
+        if ans != 'wf=true order=true arity=true':      # this stream stays inside the arity domain (wide gates: wide_gate_oracle)
+            ck.broken_tie('certificates Net.wfB / orderOKB / arityOKB on the real circuit and the real topological order', ans, inp={'net': dump})
         # certificate of Props/C01 (4'): operands never written at/after their use, single writers — on the REAL op rows
         for strip in (False, True):
             try:
@@ -150,10 +154,73 @@ def corr_and_oracle(ck, n_circuits, thorough=False):
                 sample={'net': dump, 'sims': len(case['stim'][0]), 'strip': case['strip'], 'reuse': case['reuse'],
                         'path': case['path'], 'cycles': case['cycles']},
                 tag=[f"path:{case['path']}", f"cycles:{case['cycles']}", f"strip:{case['strip']}", f"reuse:{case['reuse']}",
-                     f"ff:{min(d['ff'], 3)}", f"unconn:{min(d['unconnected_pins'], 3)}", f"sims:{len(case['stim'][0])}", hyp_tag])
+                     f"ff:{min(d['ff'], 3)}", f"unconn:{min(d['unconnected_pins'], 3)}", f"sims:{len(case['stim'][0])}", hyp_tag] +
+                    (['open-data-pin-state-element'] if any(('dff' in n.kind.lower() or 'latch' in n.kind.lower()) and
+                                                            (len(n.ins) == 0 or n.ins[0] is None) for n in c.nodes) else []))
         if not ok:
             cls = 'inject-cb' if (case['path'] == 'cb' and obs and 'raised' in obs) else 'logic2'
             ck.violation(cls, 'LogicSim(m=2) result differs from gate-by-gate evaluation of the netlist', case, obs, exp)
+
+
+# ---------------------------------------------------------------------------------------------------------------------
+# wide gates (audit finding 1 / known finding D33): circuits OUTSIDE the arity domain `Net.arityOKB`, n-ary ground truth in Python
+
+WIDE_WITNESS = 'INPUT(a,b,c,d,e) OUTPUT(z) z=AND(a,b,c,d,e)'
+
+
+def eval_wide_case(case):
+    """real LogicSim(m=2) (one propagation) vs `circ.nary_captures`: every variadic gate folds its operator over ALL input pins"""
+    import pickle, base64
+    if 'bench' in case:
+        from kyupy import bench
+        with common.quiet(): c = bench.parse(case['bench'])
+    else:
+        c = pickle.loads(base64.b64decode(case['circuit']))
+    stim = np.array(case['stim'], dtype=np.uint8)
+    s1, _, _ = run_logic(c, stim.shape[1], stim, case.get('strip', False), case.get('reuse', False), 'plain', 0)
+    for lane in range(stim.shape[1]):
+        exp = circ.nary_captures(c, [int(v) for v in stim[:, lane]])
+        for j, e in enumerate(exp):
+            if e is not None and (int(s1[j, lane]) & 1) != e:
+                return False, {'lane': lane, 's_node': j, 'name': c.s_nodes[j].name, 'captured': int(s1[j, lane]),
+                               'assignment': ''.join(str(int(v)) for v in stim[:, lane])}, {'captured': e}
+    return True, None, None
+
+
+def wide_gate_oracle(ck, n_circuits):
+    import pickle, base64
+    rng = ck.rng
+    cases = [{'bench': WIDE_WITNESS, 'stim': [[1], [1], [1], [1], [0], [0]]}]
+    for it in range(n_circuits):
+        c = circ.rand_circuit(rng, n_gates=rng.randint(1, 15), p_wide=rng.choice([0.0, 0.2, 0.5]), p_const=0.0)
+        s_len = len(c.s_nodes)
+        rs = np.random.RandomState(rng.randint(0, 2**31 - 1))
+        cases.append({'circuit': base64.b64encode(pickle.dumps(c)).decode(), 'stim': rs.randint(0, 2, size=(s_len, 16)).tolist(),
+                      'strip': rng.random() < 0.4, 'reuse': rng.random() < 0.5})
+    for case in cases:
+        if 'bench' in case:
+            from kyupy import bench
+            with common.quiet(): c = bench.parse(case['bench'])
+        else:
+            c = pickle.loads(base64.b64decode(case['circuit']))
+        wide = circ.has_wide(c)
+        try:
+            ar = common.run_driver([f'net {circ.dump_net(c)}', 'netarity'])[1]
+        except Exception as ex:
+            ar = f'{type(ex).__name__}: {ex}'[:200]
+        if ar != f'arity={"false" if wide else "true"}':
+            ck.broken_tie('domain predicate Net.arityOKB on the real circuit', f'{ar}, the generator says wide={wide}', inp={'net': circ.dump_net(c)})
+        try:
+            ok, obs, exp = _retry_if_driver_killed(eval_wide_case, case)
+        except Exception as ex:
+            ok, obs, exp = False, {'raised': f'{type(ex).__name__}: {ex}'[:300]}, None
+        ck.case(key=('wide', circ.dump_net(c)), nontrivial=len(c.lines) >= 4, tag=[f'nary-oracle:arityOKB={not wide}', f'nary-oracle:{"ok" if ok else "differs"}'])
+        if not ok:
+            # inside the domain the n-ary reading IS the reading of the theorems: a difference there is a violation of its own class
+            ck.violation('wide-gate' if wide else 'logic2-nary',
+                         'LogicSim(m=2) differs from the n-ary gate-by-gate evaluation of the netlist' +
+                         (' (a gate with more than four inputs is simulated as the 4-input primitive of its first four pins)' if wide else ''),
+                         case, obs, exp)
 
 
 # ---------------------------------------------------------------------------------------------------------------------
@@ -297,6 +364,7 @@ def run(ck):
     n = 60 if ck.tier == 'quick' else 400
     corr_and_oracle(ck, n, ck.tier == 'thorough')
     cycle_tie(ck, 40 if ck.tier == 'quick' else 300, ck.tier == 'thorough')
+    wide_gate_oracle(ck, 25 if ck.tier == 'quick' else 200)
     if ck.broken and not ck.violations:
         corr_and_oracle(ck, n * 5, ck.tier == 'thorough')
     ck.assumptions += ['state elements and ports have a connected data pin (an unconnected one raises in SimOps, finding D9)',
@@ -306,6 +374,7 @@ def run(ck):
 
 def replay(rep):
     inp = rep['input']
-    ok, obs, exp = eval_cycle_case(inp['cycle_case']) if 'cycle_case' in inp else eval_case(inp)
+    ok, obs, exp = eval_cycle_case(inp['cycle_case']) if 'cycle_case' in inp else \
+        eval_wide_case(inp) if ('bench' in inp or 'cycles' not in inp) else eval_case(inp)
     print(json.dumps({'ok': ok, 'observed': obs, 'expected': exp}, default=str))
     return 0 if ok else 1
